@@ -28,6 +28,39 @@ var shorten = strings.NewReplacer(
 // that anonymous maps and channels can be told apart in terms.
 var LocalNames = map[token.Pos]string{}
 
+// PinnedParams maps a function's canonical name to the names its parameters (receiver first) had on
+// the reviewed tree, and "<name>#free" to the names of a closure's captured variables. Terms render
+// parameters and captured variables by these pinned names (by position) as long as the arity is
+// unchanged, so that renaming a parameter or receiver does not change any term. Loaded by the driver
+// from /verif/sa/pinned_params.json; missing entries fall back to the current names.
+var PinnedParams = map[string][]string{}
+
+func pinnedName(fn *ssa.Function, v ssa.Value, free bool) string {
+	if fn == nil {
+		return v.Name()
+	}
+	key := FuncName(fn)
+	if free {
+		key += "#free"
+		if names, ok := PinnedParams[key]; ok && len(names) == len(fn.FreeVars) {
+			for i, fv := range fn.FreeVars {
+				if fv == v {
+					return names[i]
+				}
+			}
+		}
+		return v.Name()
+	}
+	if names, ok := PinnedParams[key]; ok && len(names) == len(fn.Params) {
+		for i, p := range fn.Params {
+			if p == v {
+				return names[i]
+			}
+		}
+	}
+	return v.Name()
+}
+
 // Short shortens well-known import path prefixes in rendered names.
 func Short(s string) string { return shorten.Replace(s) }
 
@@ -100,9 +133,9 @@ func term(v ssa.Value, depth int, onstack map[ssa.Value]bool) string {
 		}
 		return x.Value.ExactString()
 	case *ssa.Parameter:
-		return x.Name()
+		return pinnedName(x.Parent(), x, false)
 	case *ssa.FreeVar:
-		return x.Name()
+		return pinnedName(x.Parent(), x, true)
 	case *ssa.Global:
 		return Short(x.Pkg.Pkg.Path()) + "." + x.Name()
 	case *ssa.Function:
